@@ -30,8 +30,50 @@ import pandas as pd
 _ADDR = re.compile(r" at 0x[0-9a-fA-F]+")
 
 
+class Make:
+    """A spelling that is *built by pandera* (a pandera data type constructed
+    with parameters).  Building it is part of the observed execution: the
+    monitor builds it inside ``safe`` and a constructor that rejects a valid
+    parameterisation is a spelling that does not resolve - never a harness
+    crash.  ``text`` is the address-free source text of the call."""
+
+    def __init__(self, text, fn):
+        self.text, self.fn, self._r = text, fn, None
+
+    def get(self):
+        if self._r is None:
+            try:
+                self._r = (True, self.fn())
+            except Exception as e:  # noqa
+                self._r = (False, e)
+        return self._r
+
+
+class ConstructionRaised(Exception):
+    """constructing a pandera data type with valid parameters raised"""
+
+
+def unwrap(k):
+    """(ok, spelling object | ConstructionRaised)."""
+    if not isinstance(k, Make):
+        return True, k
+    ok, o = k.get()
+    if ok:
+        return True, o
+    return False, ConstructionRaised(
+        f"{k.text} raised {type(o).__name__}: {str(o)[:120]}")
+
+
+def _inst(cls):
+    """``cls()`` of a pandera class, built under observation."""
+    return Make(f"{cls.__module__}.{cls.__qualname__}()", cls)
+
+
 def desc(k) -> str:
     """Stable, address-free description of a spelling."""
+    if isinstance(k, Make):
+        ok, o = k.get()
+        return desc(o) if ok else f"build:{k.text}"
     if isinstance(k, str):
         return f"str:{k!r}"
     if isinstance(k, type):
@@ -56,14 +98,196 @@ def _safe_str(t):
 
 TZ_POOL = ["UTC", "Europe/Berlin", "America/New_York", "Asia/Tokyo",
            "Asia/Kolkata", "Australia/Lord_Howe", "America/St_Johns",
-           "Africa/Abidjan", "Pacific/Kiritimati", "Etc/GMT+5"]
+           "Africa/Abidjan", "Pacific/Kiritimati", "Etc/GMT+5",
+           "US/Pacific", "Asia/Kathmandu", "Europe/London"]
 FIXED_OFFSETS = [datetime.timezone.utc,
                  datetime.timezone(datetime.timedelta(hours=5, minutes=30)),
                  datetime.timezone(datetime.timedelta(hours=-8)),
                  datetime.timezone(datetime.timedelta(hours=1))]
 CAT_POOLS = [["a", "b"], ["x"], [], ["b", "a", "c"], [1, 2, 3], [3, 1],
              ["a", "A", " "], ["é", "ü"], [1.5, 2.5], [True, False],
-             ["a", "b", "c", "d", "e"], ["0", "1"]]
+             ["a", "b", "c", "d", "e"], ["0", "1"], ["low", "mid", "high"],
+             [0, 1], [0], [""], ["", "a"], [False], [-1, 0, 1], [0.0, 1.0]]
+
+
+def cat_variant(rng):
+    """(categories, ordered, how): a pool, a subset of it, or a permutation of
+    the *whole* pool (the same set of categories in another order is a
+    different type; an unordered pandas CategoricalDtype compares and hashes
+    equal to its permutations, so anything keyed on the native dtype mixes
+    them up)."""
+    pool = list(rng.choice(CAT_POOLS))
+    how = rng.choice(["as-listed", "subset", "permuted", "permuted", "reversed",
+                      "no-categories"])
+    if how == "no-categories":
+        return None, rng.random() < 0.5, how
+    if how == "subset":
+        cats = rng.sample(pool, rng.randint(0, len(pool)))
+    elif how == "permuted":
+        cats = rng.sample(pool, len(pool))
+    elif how == "reversed":
+        cats = pool[::-1]
+    else:
+        cats = pool
+    return cats, rng.random() < 0.4, how
+
+
+def decimal_variant(rng, pmax=38):
+    """(precision, scale, classes) with 1 <= precision <= pmax and
+    0 <= scale <= precision - the domain every decimal implementation used
+    here (python decimal, pyarrow.decimal128, polars.Decimal, pyspark
+    DecimalType) accepts - with the corners drawn as often as the interior."""
+    if rng.random() < 0.45:
+        p = rng.choice([1, 2, 3, 9, 10, 18, 19, 28, pmax - 1, pmax])
+    else:
+        p = rng.randint(1, pmax)
+    if rng.random() < 0.55:
+        s = rng.choice([0, 1, p - 1, p])
+    else:
+        s = rng.randint(0, p)
+    s = max(0, min(p, s))
+    cl = []
+    if s == p:
+        cl.append("scale==precision")
+    if s == 0:
+        cl.append("scale==0")
+    if s == p - 1:
+        cl.append("scale==precision-1")
+    if p == 1:
+        cl.append("precision==1")
+    if p == pmax:
+        cl.append("precision==max")
+    if not cl:
+        cl.append("interior")
+    return p, s, cl
+
+
+# ---------------------------------------------------------------------------
+# tzinfo objects: every implementation pandas accepts as DatetimeTZDtype(tz=)
+# ---------------------------------------------------------------------------
+def _opt_import(name):
+    try:
+        return __import__(name, fromlist=["_"])
+    except Exception:  # noqa
+        return None
+
+
+_OFFSET_MINUTES = [60, -480, 330, 345, -210, 0, 765, -1]
+_STAMPS = ["2021-01-15", "2021-07-15", "1995-03-01", "2038-10-31"]
+
+
+TZ_GROUPS = [
+    # classes that pandas may standardise to one tzinfo object
+    ["name", "pytz-zone", "pytz-from-timestamp", "pytz-from-localize",
+     "pytz-from-aware-datetime"],
+    ["zoneinfo", "zoneinfo-from-timestamp"],
+    ["fixed-datetime", "int-seconds", "offset-string"],
+]
+
+
+def tz_variant(rng, name=None, cls=None, mins=None, near=None):
+    """(class label, tz argument).  The classes are the *kinds of object* a
+    user can pass as ``tz``: a zone name, the canonical pytz zone object, a
+    pytz tzinfo taken from a localized timestamp / datetime (a different,
+    non-canonical instance that pandas standardises), zoneinfo, dateutil,
+    fixed offsets of datetime / pytz / dateutil, an int offset in seconds, an
+    offset string, and the UTC singletons of every implementation."""
+    pytz = _opt_import("pytz")
+    zi = _opt_import("zoneinfo")
+    du = _opt_import("dateutil.tz")
+    name = name or rng.choice(TZ_POOL)
+    classes = ["name", "fixed-datetime", "int-seconds", "offset-string"]
+    if pytz is not None:
+        classes += ["pytz-zone", "pytz-from-timestamp", "pytz-from-localize",
+                    "pytz-from-aware-datetime", "pytz-fixed", "pytz-utc"]
+    if zi is not None:
+        classes += ["zoneinfo", "zoneinfo-from-timestamp"]
+    if du is not None:
+        classes += ["dateutil-zone", "dateutil-offset", "dateutil-utc"]
+    if cls is None and near is not None and rng.random() < 0.75:
+        grp = [c for g in TZ_GROUPS if near in g for c in g if c in classes]
+        cls = rng.choice(grp) if grp else None
+    cls = cls or rng.choice(classes)
+    if mins is None:
+        mins = rng.choice(_OFFSET_MINUTES)
+    if cls == "name":
+        return cls, name
+    if cls == "fixed-datetime":
+        return cls, datetime.timezone(datetime.timedelta(minutes=mins))
+    if cls == "int-seconds":
+        return cls, (mins * 60 or 3600)          # pandas rejects a falsy tz
+    if cls == "offset-string":
+        m = abs(mins)
+        return cls, f"{'-' if mins < 0 else '+'}{m // 60:02d}:{m % 60:02d}"
+    if cls == "pytz-zone":
+        return cls, pytz.timezone(name)
+    if cls == "pytz-from-timestamp":
+        return cls, pd.Timestamp(rng.choice(_STAMPS), tz=pytz.timezone(name)).tz
+    if cls == "pytz-from-localize":
+        return cls, pytz.timezone(name).localize(
+            datetime.datetime(2021, rng.choice([1, 7]), 15)).tzinfo
+    if cls == "pytz-from-aware-datetime":
+        return cls, datetime.datetime.fromtimestamp(
+            rng.choice([0, 1_600_000_000, 1_610_000_000]),
+            pytz.timezone(name)).tzinfo
+    if cls == "pytz-fixed":
+        return cls, pytz.FixedOffset(mins)
+    if cls == "pytz-utc":
+        return cls, pytz.utc
+    if cls == "zoneinfo":
+        return cls, zi.ZoneInfo(name)
+    if cls == "zoneinfo-from-timestamp":
+        return cls, pd.Timestamp(rng.choice(_STAMPS), tz=zi.ZoneInfo(name)).tz
+    if cls == "dateutil-zone":
+        return cls, du.gettz(name)
+    if cls == "dateutil-offset":
+        return cls, du.tzoffset(None, mins * 60)
+    return cls, du.tzutc()
+
+
+def same_native(a, b):
+    """Equality of two native dtypes as the native library defines it, made
+    order-sensitive for categories (an unordered pandas CategoricalDtype
+    equals its permutations) and tzinfo-sensitive for time zones."""
+    try:
+        if a is None or b is None or not bool(a == b) or not bool(b == a):
+            return False
+        if isinstance(a, pd.CategoricalDtype):
+            ca, cb = a.categories, b.categories
+            if (ca is None) != (cb is None):
+                return False
+            if ca is not None and (list(ca) != list(cb) or ca.dtype != cb.dtype):
+                return False
+            return a.ordered == b.ordered
+        if isinstance(a, pd.DatetimeTZDtype):
+            return _same_tzinfo(a.tz, b.tz)
+        return True
+    except Exception:  # noqa
+        return False
+
+
+def _same_tzinfo(a, b):
+    """Same tzinfo object, or equal objects of one implementation."""
+    if a is b:
+        return True
+    try:
+        return type(a) is type(b) and bool(a == b)
+    except Exception:  # noqa
+        return False
+
+
+def _name_keeps_tzinfo(s, native):
+    """Does pandas itself read the printed name back to the same native dtype
+    *with the same tzinfo implementation*?  The printed name of a time zone
+    holds the zone, not the python object that implements it: pandas reads
+    'datetime64[ns, UTC]' as datetime.timezone.utc and calls that equal to
+    the pytz / zoneinfo UTC; which implementation a name must resolve to is
+    promised nowhere, so such names are not judged."""
+    try:
+        back = pd.api.types.pandas_dtype(s)
+        return back == native and _same_tzinfo(back.tz, native.tz)
+    except Exception:  # noqa
+        return False
 
 
 # ---------------------------------------------------------------------------
@@ -158,6 +382,22 @@ class Adapter:
         """(alias spelling, expected native class) judged on class only."""
         return []
 
+    def boxed_native(self, k):
+        """The native dtype a resolved type must box (its ``type``) when the
+        spelling ``k`` is itself a native dtype *instance*; None otherwise or
+        when nothing is promised ("type: native dtype boxed by the data
+        type", reference of pandera.engines.*.DataType)."""
+        return None
+
+    def registers(self, key):
+        """Is ``key`` (e.g. an abstract pandera class) a key of this engine's
+        equivalents table, i.e. a spelling the engine declares it accepts?"""
+        from pandera.engines import engine as eng
+        try:
+            return key in eng.Engine._registry[self.E].equivalents
+        except Exception:  # noqa  (unhashable key)
+            return False
+
 
 # ---------------------------------------------------------------------------
 # numpy
@@ -176,14 +416,14 @@ def _num_families(with_pandas_only=False):
         for w in ws:
             name = f"{kind}{w}"
             fam = [name, getattr(np, name), np.dtype(name),
-                   getattr(dtypes, f"{Kind}{w}"), getattr(dtypes, f"{Kind}{w}")()]
+                   getattr(dtypes, f"{Kind}{w}"), _inst(getattr(dtypes, f"{Kind}{w}"))]
             if w == default[kind]:
-                fam += [getattr(dtypes, Kind), getattr(dtypes, Kind)(), kind]
+                fam += [getattr(dtypes, Kind), _inst(getattr(dtypes, Kind)), kind]
                 if kind in builtin:
                     fam.append(builtin[kind])
             fams.append((f"number:{name}", fam))
     fams.append(("bool", ["bool", bool, np.bool_, np.dtype("bool"),
-                          dtypes.Bool, dtypes.Bool()]))
+                          dtypes.Bool, _inst(dtypes.Bool)]))
     return fams
 
 
@@ -222,11 +462,16 @@ class NumpyAdapter(Adapter):
             ("str", ["str", str, np.str_]),
             ("bytes", ["bytes", bytes, np.bytes_]),
             ("datetime", [np.datetime64, "datetime64", dtypes.Timestamp,
-                          dtypes.Timestamp(), datetime.datetime]),
+                          _inst(dtypes.Timestamp), datetime.datetime]),
             ("timedelta", [np.timedelta64, "timedelta64", dtypes.Timedelta,
-                           dtypes.Timedelta(), datetime.timedelta]),
+                           _inst(dtypes.Timedelta), datetime.timedelta]),
         ]
         return fams
+
+    def boxed_native(self, k):
+        if isinstance(k, np.dtype) and k.kind not in "Mm":
+            return k      # which unit a datetime64[<unit>] keeps: undecided
+        return None
 
     def primitive(self, t):
         if type(t) is self.mod.DataType:
@@ -291,20 +536,22 @@ class PandasAdapter(Adapter):
                                           pd.BooleanDtype()]))
         fams += [
             ("object", ["object", "O", object, np.object_, np.dtype(object)]),
-            ("str", ["str", str, np.str_, dtypes.String, dtypes.String()]),
+            ("str", ["str", str, np.str_, dtypes.String, _inst(dtypes.String)]),
             ("string:python", ["string[python]", pd.StringDtype("python")]),
+            ("string:default-storage", ["string", pd.StringDtype, pd.StringDtype(),
+                                        self.mod.STRING, _inst(self.mod.STRING)]),
             ("string:pyarrow", ["string[pyarrow]", pd.StringDtype("pyarrow")]),
             ("datetime", ["datetime64[ns]", np.dtype("datetime64[ns]"),
                           "datetime64", np.datetime64, datetime.datetime,
-                          pd.Timestamp, dtypes.Timestamp, dtypes.Timestamp(),
+                          pd.Timestamp, dtypes.Timestamp, _inst(dtypes.Timestamp),
                           dtypes.DateTime]),
             ("timedelta", ["timedelta64[ns]", np.dtype("timedelta64[ns]"),
                            "timedelta64", np.timedelta64, datetime.timedelta,
-                           pd.Timedelta, dtypes.Timedelta, dtypes.Timedelta()]),
+                           pd.Timedelta, dtypes.Timedelta, _inst(dtypes.Timedelta)]),
             ("category", ["category", pd.CategoricalDtype,
                           pd.CategoricalDtype(), dtypes.Category,
-                          dtypes.Category()]),
-            ("date", ["date", datetime.date, dtypes.Date, dtypes.Date()]),
+                          _inst(dtypes.Category)]),
+            ("date", ["date", datetime.date, dtypes.Date, _inst(dtypes.Date)]),
         ]
         # docs/source/dtype_validation.md "Support for the python typing module":
         # the same spelling resolved twice must give equal objects
@@ -340,7 +587,8 @@ class PandasAdapter(Adapter):
         import pyarrow
         from pandera import dtypes
         return {
-            dtypes.Category: [dtypes.Category(["a", "b"], ordered=True)],
+            dtypes.Category: [Make("pandera.dtypes.Category(['a', 'b'], ordered=True)",
+                                   lambda: dtypes.Category(["a", "b"], ordered=True))],
             pd.CategoricalDtype: [pd.CategoricalDtype(["a", "b"], ordered=True),
                                   pd.CategoricalDtype()],
             pd.StringDtype: [pd.StringDtype("python"), pd.StringDtype("pyarrow")],
@@ -366,6 +614,20 @@ class PandasAdapter(Adapter):
             pyarrow.DataType: [pyarrow.binary()],
         }
 
+    def boxed_native(self, k):
+        import pyarrow
+        if isinstance(k, np.dtype):
+            if k.kind in "Mm" and not k.name.endswith("[ns]"):
+                return None       # units other than ns: documented unsupported
+            return k
+        if isinstance(k, pyarrow.DataType):
+            return pd.ArrowDtype(k)
+        if isinstance(k, pd.DatetimeTZDtype) and k.unit != "ns":
+            return None
+        if isinstance(k, pd.api.extensions.ExtensionDtype):
+            return k
+        return None
+
     def class_params(self):
         import pydantic
 
@@ -374,9 +636,12 @@ class PandasAdapter(Adapter):
 
         m = self.mod
         return {
-            m.Period: [m.Period(freq="D")],
-            m.Interval: [m.Interval(subtype="int64")],
-            m.PydanticModel: [m.PydanticModel(_Rec)],
+            m.Period: [Make("pandas_engine.Period(freq='D')",
+                            lambda: m.Period(freq="D"))],
+            m.Interval: [Make("pandas_engine.Interval(subtype='int64')",
+                              lambda: m.Interval(subtype="int64"))],
+            m.PydanticModel: [Make("pandas_engine.PydanticModel(<model>)",
+                                   lambda: m.PydanticModel(_Rec))],
         }
 
     def primitive(self, t):
@@ -402,6 +667,12 @@ class PandasAdapter(Adapter):
             return "undecided:not-listed-as-primitive"
         if isinstance(t, m.DateTime) and t.time_zone_agnostic:
             return "undecided:time-zone-agnostic"
+        if isinstance(t, m.DateTime) and isinstance(t.type, pd.DatetimeTZDtype) \
+                and not _name_keeps_tzinfo(str(t.type), t.type):
+            # decided on the native dtype's own name (pandas), not on what
+            # pandera prints
+            return ("undecided:printed-name-does-not-keep-tzinfo-"
+                    "implementation")
         if type(t) in (m.DataType, self_numpy().DataType):
             return "undecided:unregistered-fallback-type"
         return "judge"
@@ -409,103 +680,241 @@ class PandasAdapter(Adapter):
     def alias_probes(self):
         return _sctype_aliases()
 
+    @staticmethod
+    def _alias(nat):
+        """The pandas string alias of a native dtype, when pandas itself reads
+        it back to that dtype ("any of the string aliases supported by
+        pandas", docs/source/dtype_validation.md)."""
+        return [str(nat)] if _pandas_parses(str(nat), nat) else []
+
     # -- sampled parameterisations ---------------------------------------
     def param_family(self, rng):
         import pyarrow
         from pandera import dtypes
         m = self.mod
-        kind = rng.choice(["tz", "tz", "tz-fixed", "cat", "cat", "string",
-                           "period", "sparse", "interval", "decimal",
+        kind = rng.choice(["tz", "tz", "tz", "tz-agnostic", "cat", "cat",
+                           "string", "period", "sparse", "interval", "generic",
+                           "decimal", "decimal",
                            "a-ts", "a-ts", "a-dur", "a-t32", "a-t64", "a-dec",
                            "a-dict", "a-list", "a-struct", "a-map", "a-bin"])
-        if kind in ("tz", "tz-fixed"):
-            tz = rng.choice(TZ_POOL) if kind == "tz" else rng.choice(FIXED_OFFSETS)
-            nat = pd.DatetimeTZDtype("ns", tz)
-            sp = [nat, m.DateTime(tz=tz), m.DateTime(unit="ns", tz=nat.tz)]
-            if _pandas_parses(str(nat), nat):
+        if kind in ("tz", "tz-agnostic"):
+            name = rng.choice(TZ_POOL)
+            mins = rng.choice(_OFFSET_MINUTES)
+            cl, tz = tz_variant(rng, name, mins=mins)
+            try:
+                nat = pd.DatetimeTZDtype("ns", tz)
+            except Exception:  # noqa  pandas itself does not accept it
+                return {"label": f"tz-not-accepted-by-pandas[{cl}]",
+                        "spellings": [], "classes": [f"undecided:pandas-rejects-tz:{cl}"]}
+            if kind == "tz-agnostic":
+                # one spelling built twice (the flag is part of the type)
+                mk = lambda: Make(  # noqa
+                    f"pandas_engine.DateTime(tz={tz!r}, time_zone_agnostic=True)",
+                    lambda: m.DateTime(tz=tz, time_zone_agnostic=True))
+                return {"label": f"DateTime-tz-agnostic[{cl}:{tz!r}]",
+                        "spellings": [mk(), mk()],
+                        "expect_class": ("datetime", None, None),
+                        "classes": [f"tzclass:{cl}"]}
+            sp = [nat,
+                  Make(f"pandas_engine.DateTime(tz={tz!r})",
+                       lambda: m.DateTime(tz=tz)),
+                  Make(f"pandas_engine.DateTime(unit='ns', tz={nat.tz!r})",
+                       lambda: m.DateTime(unit="ns", tz=nat.tz))]
+            classes = [f"tzclass:{cl}"]
+            # a second object for the same zone: when pandas standardises both
+            # to the same tzinfo they are one type
+            cl2, tz2 = tz_variant(rng, name, mins=mins, near=cl)
+            try:
+                nat2 = pd.DatetimeTZDtype("ns", tz2)
+            except Exception:  # noqa
+                nat2 = None
+            if nat2 is not None and nat2 == nat and _same_tzinfo(nat2.tz, nat.tz):
+                sp += [nat2, Make(f"pandas_engine.DateTime(tz={tz2!r})",
+                                  lambda: m.DateTime(tz=tz2))]
+                classes += [f"tzclass:{cl2}", "tz-two-objects-one-zone"]
+            if _name_keeps_tzinfo(str(nat), nat):
                 sp.append(str(nat))
-            return {"label": f"DatetimeTZDtype[ns,{tz}]", "spellings": sp,
+                classes.append("tz-printed-name-in-family")
+            else:
+                classes.append("undecided:printed-name-does-not-keep-tzinfo-"
+                               "implementation")
+            return {"label": f"DatetimeTZDtype[ns,{cl}:{tz!r}|{cl2}]",
+                    "spellings": sp, "classes": classes,
                     "expect_class": ("datetime", None, None)}
+        if kind == "generic":
+            # docs/source/dtype_validation.md "Support for the python typing
+            # module": the same generic written twice is one type
+            import typing
+            el = lambda: rng.choice([int, str, float, bool])  # noqa
+            which = rng.choice(["List", "Dict", "Tuple"])
+            if which == "List":
+                a = el()
+                mk = lambda: typing.List[a]  # noqa
+            elif which == "Dict":
+                a, b = el(), el()
+                mk = lambda: typing.Dict[a, b]  # noqa
+            else:
+                args = tuple(el() for _ in range(rng.randint(1, 3)))
+                mk = lambda: typing.Tuple[args]  # noqa
+            return {"label": f"typing[{mk()}]", "spellings": [mk(), mk()]}
         if kind == "cat":
-            cats = rng.choice(CAT_POOLS)
-            k = rng.randint(0, len(cats))
-            cats = rng.sample(cats, k) if rng.random() < 0.5 else list(cats)
-            o = rng.random() < 0.4
-            sp = [pd.CategoricalDtype(cats, o), dtypes.Category(cats, o),
-                  m.Category(cats, o)]
-            return {"label": f"Categorical[{cats},{o}]", "spellings": sp}
+            cats, o, how = cat_variant(rng)
+            sp = [pd.CategoricalDtype(cats, o),
+                  Make(f"pandera.dtypes.Category({cats!r}, {o})",
+                       lambda: dtypes.Category(cats, o)),
+                  Make(f"pandas_engine.Category({cats!r}, {o})",
+                       lambda: m.Category(cats, o)),
+                  Make(f"pandas_engine.Category({cats!r}, {o}) [tuple]",
+                       lambda: m.Category(None if cats is None else tuple(cats), o))]
+            return {"label": f"Categorical[{cats},{o}]", "spellings": sp,
+                    "classes": [f"cat:{how}", f"cat:ordered={o}",
+                                "cat:none" if cats is None else
+                                "cat:empty" if not cats else "cat:non-empty"]}
         if kind == "string":
             st = rng.choice(["python", "pyarrow"])
             nat = pd.StringDtype(st)
             return {"label": f"StringDtype[{st}]",
-                    "spellings": [nat, m.STRING(st), f"string[{st}]"]}
+                    "spellings": [nat, Make(f"pandas_engine.STRING({st!r})",
+                                            lambda: m.STRING(st)),
+                                  f"string[{st}]"]}
         if kind == "period":
             f = rng.choice(["D", "M", "Y", "h", "min", "s", "W", "Q", "B"])
-            return {"label": f"Period[{f}]",
-                    "spellings": [pd.PeriodDtype(f), m.Period(freq=pd.PeriodDtype(f).freq)]}
+            nat = pd.PeriodDtype(f)
+            sp = [nat, Make(f"pandas_engine.Period(freq={nat.freq!r})",
+                            lambda: m.Period(freq=nat.freq))]
+            # the frequency given as a string is kept as a string: whether
+            # that equals the resolution of the native dtype is not documented
+            also = [Make(f"pandas_engine.Period(freq={f!r})",
+                         lambda: m.Period(freq=f))]
+            return {"label": f"Period[{f}]", "spellings": sp + self._alias(nat),
+                    "also": also}
         if kind == "sparse":
             d, fv = rng.choice([("float64", np.nan), ("int64", 0), ("bool", False),
                                 ("float32", np.nan), ("int8", 1)])
+            nat = pd.SparseDtype(d, fv)
             return {"label": f"Sparse[{d},{fv}]",
-                    "spellings": [pd.SparseDtype(d, fv)]}
+                    "spellings": [nat, Make(
+                        f"pandas_engine.Sparse(dtype={d!r}, fill_value={fv!r})",
+                        lambda: m.Sparse(dtype=nat.subtype, fill_value=nat.fill_value))]
+                    + self._alias(nat),
+                    "also": [Make(f"pandas_engine.Sparse(dtype={d!r}, fill_value={fv!r}) [str]",
+                                  lambda: m.Sparse(dtype=d, fill_value=fv))]}
         if kind == "interval":
             s = rng.choice(["int64", "float64", "datetime64[ns]", "int32",
                             "timedelta64[ns]"])
+            closed = rng.choice([None, None, "left", "right", "both", "neither"])
+            nat = pd.IntervalDtype(s, closed)
+            if closed is not None:
+                # pandas_engine.Interval has no field for the closed side:
+                # only the native spelling (and its alias) can say it
+                return {"label": f"Interval[{s},{closed}]",
+                        "spellings": [nat] + self._alias(nat),
+                        "classes": [f"interval:closed={closed}"]}
             return {"label": f"Interval[{s}]",
-                    "spellings": [pd.IntervalDtype(s)]}
+                    "spellings": [nat, Make(
+                        f"pandas_engine.Interval(subtype={s!r})",
+                        lambda: m.Interval(subtype=nat.subtype))]
+                    + self._alias(nat),
+                    "also": [Make(f"pandas_engine.Interval(subtype={s!r}) [str]",
+                                  lambda: m.Interval(subtype=s))]}
         if kind == "decimal":
-            p = rng.randint(1, 38)
-            s = rng.randint(0, p)
+            # python decimal contexts have no 38-digit limit
+            p, s, cl = decimal_variant(rng, rng.choice([38, 38, 60]))
             r = rng.choice([None, decimal.ROUND_HALF_UP, decimal.ROUND_DOWN])
-            return {"label": f"Decimal[{p},{s},{r}]",
-                    "spellings": [m.Decimal(p, s, r), m.Decimal(p, s, r)]}
+            mk = lambda: Make(f"pandas_engine.Decimal({p}, {s}, {r!r})",  # noqa
+                              lambda: m.Decimal(p, s, r))
+            sp = [mk(), mk()]
+            classes = [f"decimal:{c}" for c in cl]
+            if self.registers(dtypes.Decimal):
+                # the abstract pandera type is a registered spelling of this
+                # engine: an instance carrying parameters is one too
+                sp.append(Make(f"pandera.dtypes.Decimal({p}, {s}, {r!r})",
+                               lambda: dtypes.Decimal(p, s, r)))
+                classes.append("abstract-parameterised-instance")
+            return {"label": f"Decimal[{p},{s},{r}]", "spellings": sp,
+                    "classes": classes}
         # pyarrow parameterised: bare pyarrow instance, ArrowDtype, alias
+        classes = []
         if kind == "a-ts":
             u = rng.choice(["s", "ms", "us", "ns"])
-            tz = rng.choice([None, None] + TZ_POOL)
+            tz = rng.choice([None, None] + TZ_POOL + ["+05:30", "-08:00"])
             pt = pyarrow.timestamp(u, tz)
             exp = ("datetime", None, None)
+            ctor = Make(f"pandas_engine.ArrowTimestamp(unit={u!r}, tz={tz!r})",
+                        lambda: m.ArrowTimestamp(unit=u, tz=tz))
         elif kind == "a-dur":
-            pt = pyarrow.duration(rng.choice(["s", "ms", "us", "ns"]))
+            u = rng.choice(["s", "ms", "us", "ns"])
+            pt = pyarrow.duration(u)
             exp = ("timedelta", None, None)
+            ctor = Make(f"pandas_engine.ArrowDuration(unit={u!r})",
+                        lambda: m.ArrowDuration(unit=u))
         elif kind == "a-t32":
-            pt = pyarrow.time32(rng.choice(["s", "ms"]))
+            u = rng.choice(["s", "ms"])
+            pt = pyarrow.time32(u)
             exp = ("time", None, None)
+            ctor = Make(f"pandas_engine.ArrowTime32(unit={u!r})",
+                        lambda: m.ArrowTime32(unit=u))
         elif kind == "a-t64":
-            pt = pyarrow.time64(rng.choice(["us", "ns"]))
+            u = rng.choice(["us", "ns"])
+            pt = pyarrow.time64(u)
             exp = ("time", None, None)
+            ctor = Make(f"pandas_engine.ArrowTime64(unit={u!r})",
+                        lambda: m.ArrowTime64(unit=u))
         elif kind == "a-dec":
-            p = rng.randint(1, 38)
-            pt = pyarrow.decimal128(p, rng.randint(0, p))
+            p, sc, cl = decimal_variant(rng)
+            if rng.random() < 0.1:
+                sc, cl = -rng.randint(1, 5), ["negative-scale"]   # pyarrow allows it
+            classes = [f"decimal:{c}" for c in cl]
+            pt = pyarrow.decimal128(p, sc)
             exp = None
+            ctor = Make(f"pandas_engine.ArrowDecimal128({p}, {sc})",
+                        lambda: m.ArrowDecimal128(precision=p, scale=sc))
         elif kind == "a-dict":
-            pt = pyarrow.dictionary(
-                rng.choice([pyarrow.int8(), pyarrow.int32(), pyarrow.int64()]),
-                rng.choice([pyarrow.string(), pyarrow.int64(), pyarrow.float64()]),
-                rng.random() < 0.3)
+            it = rng.choice([pyarrow.int8(), pyarrow.int32(), pyarrow.int64()])
+            vt = rng.choice([pyarrow.string(), pyarrow.int64(), pyarrow.float64()])
+            od = rng.random() < 0.3
+            pt = pyarrow.dictionary(it, vt, od)
             exp = None
+            ctor = Make(f"pandas_engine.ArrowDictionary({it}, {vt}, {od})",
+                        lambda: m.ArrowDictionary(index_type=it, value_type=vt,
+                                                  ordered=od))
         elif kind == "a-list":
             v = rng.choice([pyarrow.string(), pyarrow.int64(), pyarrow.float32()])
-            pt = pyarrow.list_(v, rng.choice([-1, -1, 2, 3]))
+            n = rng.choice([-1, -1, 0, 1, 2, 3])
+            pt = pyarrow.list_(v, n)
             exp = None
+            ctor = Make(f"pandas_engine.ArrowList({v}, {n})",
+                        lambda: m.ArrowList(value_type=v, list_size=n))
         elif kind == "a-struct":
             n = rng.randint(0, 3)
-            pt = pyarrow.struct([(f"f{i}", rng.choice(
+            fields = tuple(pyarrow.field(f"f{i}", rng.choice(
                 [pyarrow.int64(), pyarrow.string(), pyarrow.bool_()]))
-                for i in range(n)])
+                for i in range(n))
+            pt = pyarrow.struct(list(fields))
             exp = None
+            ctor = Make(f"pandas_engine.ArrowStruct(fields={fields!r})",
+                        lambda: m.ArrowStruct(fields=fields))
         elif kind == "a-map":
-            pt = pyarrow.map_(rng.choice([pyarrow.string(), pyarrow.int32()]),
-                              rng.choice([pyarrow.int64(), pyarrow.string()]))
+            kt = rng.choice([pyarrow.string(), pyarrow.int32()])
+            vt = rng.choice([pyarrow.int64(), pyarrow.string()])
+            ks = rng.random() < 0.3
+            pt = pyarrow.map_(kt, vt, ks)
             exp = None
+            ctor = Make(f"pandas_engine.ArrowMap({kt}, {vt}, {ks})",
+                        lambda: m.ArrowMap(key_type=kt, item_type=vt,
+                                           keys_sorted=ks))
         else:
-            pt = pyarrow.binary(rng.choice([-1, 1, 4, 16]))
+            n = rng.choice([-1, 0, 1, 4, 16])
+            pt = pyarrow.binary(n)
             exp = None
+            ctor = Make(f"pandas_engine.ArrowBinary({n})",
+                        lambda: m.ArrowBinary(length=n))
         nat = pd.ArrowDtype(pt)
-        sp = [nat, pt]
+        sp = [nat, pt, ctor]
         if _pandas_parses(str(nat), nat):
             sp.append(str(nat))
-        return {"label": f"Arrow[{pt}]", "spellings": sp, "expect_class": exp}
+        return {"label": f"Arrow[{pt}]", "spellings": sp, "expect_class": exp,
+                "classes": classes}
 
 
 def self_numpy():
@@ -565,7 +974,7 @@ class PolarsAdapter(Adapter):
         for n in ["Int8", "Int16", "Int32", "Int64", "UInt8", "UInt16",
                   "UInt32", "UInt64", "Float32", "Float64"]:
             fam = [getattr(pl, n), getattr(pl, n)(), n.lower(),
-                   getattr(dtypes, n), getattr(dtypes, n)()]
+                   getattr(dtypes, n), _inst(getattr(dtypes, n))]
             fams.append((f"number:{n}", fam))
         # docs/source/polars.md "Supported Data Types"
         fams += [
@@ -573,22 +982,26 @@ class PolarsAdapter(Adapter):
             ("doc:str", [str, pl.Utf8, pl.String]),
             ("doc:float", [float, pl.Float64]),
             ("doc:bool", [bool, pl.Boolean, pl.Boolean(), "bool",
-                          dtypes.Bool, dtypes.Bool()]),
+                          dtypes.Bool, _inst(dtypes.Bool)]),
             ("string", ["string", pl.Utf8, pl.Utf8(), dtypes.String,
-                        dtypes.String()]),
+                        _inst(dtypes.String)]),
             ("date", [datetime.date, pl.Date, pl.Date(), "date", dtypes.Date,
-                      dtypes.Date()]),
+                      _inst(dtypes.Date)]),
             ("time", [datetime.time, pl.Time, pl.Time(), "time"]),
             ("datetime", [datetime.datetime, pl.Datetime, "datetime",
-                          dtypes.DateTime, dtypes.DateTime()]),
+                          dtypes.DateTime, _inst(dtypes.DateTime)]),
             ("timedelta", [datetime.timedelta, pl.Duration, "timedelta",
-                           dtypes.Timedelta, dtypes.Timedelta()]),
+                           dtypes.Timedelta, _inst(dtypes.Timedelta)]),
             ("binary", [bytes, pl.Binary, pl.Binary(), "binary"]),
             ("null", ["null", pl.Null, pl.Null()]),
             ("object", ["object", object, pl.Object, pl.Object()]),
-            ("category", ["category", dtypes.Category, dtypes.Category()]),
+            ("category", ["category", dtypes.Category, _inst(dtypes.Category)]),
         ]
         return fams
+
+    def boxed_native(self, k):
+        import polars as pl
+        return k if isinstance(k, pl.DataType) else None
 
     def dispatch_samples(self):
         import polars as pl
@@ -611,46 +1024,100 @@ class PolarsAdapter(Adapter):
         if kind == "dt":
             u = rng.choice(["ns", "us", "ms"])
             tz = rng.choice([None, None] + TZ_POOL)
+            if rng.random() < 0.2:
+                mk = lambda: Make(  # noqa
+                    f"polars_engine.DateTime(time_zone_agnostic=True, "
+                    f"time_zone={tz!r}, time_unit={u!r})",
+                    lambda: m.DateTime(time_zone_agnostic=True, time_zone=tz,
+                                       time_unit=u))
+                return {"label": f"Datetime-tz-agnostic[{u},{tz}]",
+                        "spellings": [mk(), mk()],
+                        "expect_class": ("datetime", None, None)}
             return {"label": f"Datetime[{u},{tz}]",
-                    "spellings": [pl.Datetime(u, tz),
-                                  m.DateTime(time_zone=tz, time_unit=u)],
+                    "spellings": [pl.Datetime(u, tz), Make(
+                        f"polars_engine.DateTime(time_zone={tz!r}, time_unit={u!r})",
+                        lambda: m.DateTime(time_zone=tz, time_unit=u))],
                     "expect_class": ("datetime", None, None)}
         if kind == "dur":
             u = rng.choice(["ns", "us", "ms"])
             return {"label": f"Duration[{u}]",
-                    "spellings": [pl.Duration(u), m.Timedelta(time_unit=u)],
+                    "spellings": [pl.Duration(u), Make(
+                        f"polars_engine.Timedelta(time_unit={u!r})",
+                        lambda: m.Timedelta(time_unit=u))],
                     "expect_class": ("timedelta", None, None)}
         if kind == "dec":
-            p = rng.randint(1, 38)
-            s = rng.randint(0, p)
-            return {"label": f"Decimal[{p},{s}]",
-                    "spellings": [pl.Decimal(p, s), m.Decimal(p, s)]}
+            from pandera import dtypes
+            p, s, cl = decimal_variant(rng)
+            sp = [pl.Decimal(p, s), Make(f"polars_engine.Decimal({p}, {s})",
+                                         lambda: m.Decimal(p, s))]
+            classes = [f"decimal:{c}" for c in cl]
+            if self.registers(dtypes.Decimal):
+                sp.append(Make(f"pandera.dtypes.Decimal({p}, {s})",
+                               lambda: dtypes.Decimal(p, s)))
+                classes.append("abstract-parameterised-instance")
+            return {"label": f"Decimal[{p},{s}]", "spellings": sp,
+                    "classes": classes}
         if kind == "enum":
             cats = [str(c) for c in rng.choice(CAT_POOLS)]
             cats = list(dict.fromkeys(cats))
+            if rng.random() < 0.4:
+                cats = rng.sample(cats, len(cats))
             return {"label": f"Enum[{cats}]",
-                    "spellings": [pl.Enum(cats), m.Enum(cats)]}
+                    "spellings": [pl.Enum(cats),
+                                  Make(f"polars_engine.Enum({cats!r})",
+                                       lambda: m.Enum(cats)),
+                                  Make(f"polars_engine.Enum(pl.Series({cats!r}))",
+                                       lambda: m.Enum(pl.Series(cats, dtype=pl.Utf8)))],
+                    "classes": ["enum:empty" if not cats else "enum:non-empty"]}
         if kind == "cat":
             return {"label": "Categorical",
                     "spellings": [pl.Categorical(), pl.Categorical]}
         if kind == "category":
-            cats = [str(c) for c in rng.choice(CAT_POOLS)]
-            return {"label": f"Category[{cats}]",
-                    "spellings": [m.Category(cats), m.Category(cats)]}
+            from pandera import dtypes
+            cats, _, how = cat_variant(rng)
+            cats = None if cats is None else [str(c) for c in cats]
+            mk = lambda: Make(f"polars_engine.Category({cats!r})",  # noqa
+                              lambda: m.Category(cats))
+            sp = [mk(), mk()]
+            classes = [f"cat:{how}"]
+            if self.registers(dtypes.Category):
+                sp.append(Make(f"pandera.dtypes.Category({cats!r})",
+                               lambda: dtypes.Category(cats)))
+                classes.append("abstract-parameterised-instance")
+            return {"label": f"Category[{cats}]", "spellings": sp,
+                    "classes": classes}
         inner = rng.choice([pl.Int64, pl.Utf8, pl.Float32, pl.Boolean,
-                            pl.Datetime("us")])
+                            pl.Datetime("us"), pl.List(pl.Int64),
+                            pl.Array(pl.Float64, 2), pl.Struct({"a": pl.Int8}),
+                            pl.Decimal(10, 10)])
         if kind == "list":
             return {"label": f"List[{inner}]",
-                    "spellings": [pl.List(inner), m.List(inner)]}
+                    "spellings": [pl.List(inner), Make(
+                        f"polars_engine.List({inner})", lambda: m.List(inner))]}
         if kind == "array":
-            w = rng.randint(1, 4)
-            return {"label": f"Array[{inner},{w}]",
-                    "spellings": [pl.Array(inner, w), m.Array(inner, w)]}
-        n = rng.randint(1, 3)
+            how = rng.choice(["width", "width", "shape-1d", "shape-2d",
+                              "shape-3d"])
+            if how == "width":
+                w = rng.randint(0, 4)
+            else:
+                nd = {"shape-1d": 1, "shape-2d": 2, "shape-3d": 3}[how]
+                w = tuple(rng.randint(1, 4) for _ in range(nd))
+            sp = [pl.Array(inner, w), Make(
+                f"polars_engine.Array({inner}, {w})", lambda: m.Array(inner, w))]
+            if isinstance(w, int):
+                sp.append(Make(f"polars_engine.Array({inner}, width={w})",
+                               lambda: m.Array(inner, width=w)))
+            return {"label": f"Array[{inner},{w}]", "spellings": sp,
+                    "classes": [f"array:{how}"] +
+                    (["array:width==0"] if w == 0 else []) +
+                    (["array:unequal-dimensions"]
+                     if isinstance(w, tuple) and len(set(w)) > 1 else [])}
+        n = rng.randint(0, 3)
         fields = {f"f{i}": rng.choice([pl.Int64, pl.Utf8, pl.Float64])
                   for i in range(n)}
         return {"label": f"Struct[{fields}]",
-                "spellings": [pl.Struct(fields), m.Struct(fields)]}
+                "spellings": [pl.Struct(fields), Make(
+                    f"polars_engine.Struct({fields})", lambda: m.Struct(fields))]}
 
 
 # ---------------------------------------------------------------------------
@@ -692,6 +1159,9 @@ class PysparkAdapter(Adapter):
             fams.append((f"native:{n}", [c, c(), n, f"{n}()"]))
         return fams
 
+    def boxed_native(self, k):
+        return k if isinstance(k, self.pst.DataType) else None
+
     def dispatch_samples(self):
         pst = self.pst
         return {
@@ -712,21 +1182,35 @@ class PysparkAdapter(Adapter):
         pst = self.pst
         m = self.mod
         kind = rng.choice(["dec", "dec", "arr", "map"])
-        elem = lambda: rng.choice([pst.StringType(), pst.IntegerType(),  # noqa
-                                   pst.LongType(), pst.DoubleType(),
-                                   pst.BooleanType(), pst.DateType()])
+        def elem(depth=0):
+            r = rng.random()
+            if depth < 2 and r < 0.15:
+                return pst.ArrayType(elem(depth + 1), rng.random() < 0.5)
+            if r < 0.25:
+                p, s, _ = decimal_variant(rng)
+                return pst.DecimalType(p, s)
+            return rng.choice([pst.StringType(), pst.IntegerType(),
+                               pst.LongType(), pst.DoubleType(),
+                               pst.BooleanType(), pst.DateType(),
+                               pst.TimestampType(), pst.ByteType()])
         if kind == "dec":
-            p = rng.randint(1, 38)
-            s = rng.randint(0, p)
+            p, s, cl = decimal_variant(rng)
             return {"label": f"DecimalType[{p},{s}]",
-                    "spellings": [pst.DecimalType(p, s), m.Decimal(p, s)]}
+                    "spellings": [pst.DecimalType(p, s),
+                                  Make(f"pyspark_engine.Decimal({p}, {s})",
+                                       lambda: m.Decimal(p, s))],
+                    "classes": [f"decimal:{c}" for c in cl]}
         if kind == "arr":
             e, c = elem(), rng.random() < 0.5
             return {"label": f"ArrayType[{e},{c}]",
-                    "spellings": [pst.ArrayType(e, c), m.ArrayType(e, c)]}
+                    "spellings": [pst.ArrayType(e, c), Make(
+                        f"pyspark_engine.ArrayType({e}, {c})",
+                        lambda: m.ArrayType(e, c))]}
         k, v, c = elem(), elem(), rng.random() < 0.5
         return {"label": f"MapType[{k},{v},{c}]",
-                "spellings": [pst.MapType(k, v, c), m.MapType(k, v, c)]}
+                "spellings": [pst.MapType(k, v, c), Make(
+                    f"pyspark_engine.MapType({k}, {v}, {c})",
+                    lambda: m.MapType(k, v, c))]}
 
 
 def adapters():
